@@ -101,7 +101,7 @@ Definition run_query (c : comparer) (rd : treader) (fuel : nat) (q : tquery) : b
           let '(l, tf) := ti_run c rd t (map cop_of ops) in
           all2 obs_eqb l o
           && Bool.eqb (match ti_error tf with None => true | Some _ => false end) errnil
-      | inl _ => match o with [] => negb errnil | _ => false end
+      | inl _ => forallb (fun x => match x with None => true | Some _ => false end) o && negb errnil
       end
   end.
 
